@@ -263,3 +263,10 @@ func VerifBroker_2P2C() {
 func VerifBroker_1P1CRogue() {
 	verifBrokerScenario(1, 1, true, false)
 }
+
+// Two proxy polls that carry the same session id (a retried POST, an id collision, a hostile
+// proxy) and no client: both polls are answered and nothing stays registered.
+func VerifBroker_2P0CDup() {
+	verifSids[1] = verifSids[0]
+	verifBrokerScenario(2, 0, false, false)
+}
